@@ -26,6 +26,11 @@ CLAIMED = {
            "Event-log theorem for every configuration; the dry-vs-real differential and the monitor check adapter calls and states on the real code.", "DESIGN.md §6 C17"),
  "C20": ex("ERROR aborts with state unchanged, None/omitted/passive answers are no-ops (equational laws), NOJOBS ignores answers",
            "Equational laws of the model for all states and answers; monitor checks states/jobs/restarts across polls with ERROR, NOJOBS and partial answers on the real code.", "DESIGN.md §6 C20"),
+ "C16": ("proof",
+         "state tables regenerated from the adapters' _state functions on every run (AST translation, extensional fallback) + decide over the documented vocabularies; per-job-id exactness theorem of the row fold; exit-code laws; parsing correspondence with the real check_jobs under a scripted subprocess / fake flux",
+         "Tables: 'alive never maps to terminal' and 'only success maps to FINISHED (for every string)' are re-proved against the current source on every run; parsing: the fold theorem shows each queried id gets the state of the last row whose id field equals it exactly and None when absent; the Lean parser is validated against the real squeue/sacct/bjobs parsers on generated outputs (padding, prefix ids, array/step rows, blank lines, malformed stream) and all exit codes.",
+         "Trusted: Lean kernel; standard axioms; the translator (cross-checked against the real _state on the vocabulary + random strings every run); the hand-entered vocabulary/classification of scheduler states (Model/SchedVocab.lean); Python re.split/str.split/strip modelled for ASCII. Known finding: Slurm STOPPED (ST).",
+         "DESIGN.md §6 C16"),
  "C14": ("proof",
          "Lean 4 theorems over Model/Dag.lean (acyclicity invariant, DFS cycle-detection soundness/completeness, toposort, BFS/DFS exactness, fuel sufficiency) + operation-sequence correspondence with the real DAG class + property monitor",
          "Machine-checked theorems for all operation sequences and all graphs over a hand-written model of dag.py; the model is tied to the code on every run by a differential run (random + bounded-exhaustive operation sequences, state compared after every operation) and the property is also monitored directly on the real graph.",
